@@ -217,3 +217,19 @@ Fixpoint input_events (l : list event) : list (string * index) :=
   | EvInput s i :: r => (s, i) :: input_events r
   | _ :: r => input_events r
   end.
+
+(** comparison of input-evaluation logs as multisets *)
+Definition ev_in (e : string * index) (l : list (string * index)) : bool :=
+  existsb (fun x => String.eqb (fst x) (fst e) && index_eqb (snd x) (snd e)) l.
+Definition evs_match (a b : list (string * index)) : bool :=
+  Nat.eqb (length a) (length b) && forallb (fun e => ev_in e b) a && forallb (fun e => ev_in e a) b.
+
+Definition check_log (fuel : nat) (alg : algorithm) (c : wcfg) (calls0 : nat) (rs : list request)
+           (expected : list (string * index)) : bool :=
+  evs_match (input_events (log (snd (run_schedule fuel alg c calls0 rs)))) expected.
+
+(** observations, absence of in-flight markers and the number of callback invocations *)
+Definition check_faulty (fuel : nat) (alg : algorithm) (c : wcfg) (calls0 : nat) (rs : list request)
+           (expected : list obs) (ncalls : nat) : bool :=
+  let (os, st) := run_schedule fuel alg c calls0 rs in
+  obs_list_eqb os expected && negb (pending_left st) && Nat.eqb (calls st) ncalls.
